@@ -20,23 +20,31 @@ pub fn export(db: &DbIndex) -> Index {
 fn export_modules(db: &DbIndex) -> Vec<Module> {
     let type_index = db.get_type_index();
     let module_index = db.get_module_index();
-    let modules = module_index.get_module_infos();
+    let mut modules = module_index.get_module_infos();
     let vfs = db.get_vfs();
+
+    // The index is a hash map: sort so that the export does not depend on its iteration order.
+    modules.sort_by(|a, b| {
+        (&a.full_module_name, vfs.get_file_path(&a.file_id))
+            .cmp(&(&b.full_module_name, vfs.get_file_path(&b.file_id)))
+    });
 
     modules
         .into_iter()
         .filter(|module| module_index.is_main(&module.file_id))
-        .filter_map(|module| {
-            let (members, typ) = match module.export_type.as_ref()? {
-                LuaType::TableConst(t) => {
+        .map(|module| {
+            let (members, typ) = match module.export_type.as_ref() {
+                // A file that returns nothing is still a module of the workspace.
+                None => (Vec::new(), None),
+                Some(LuaType::TableConst(t)) => {
                     let member_owner = LuaMemberOwner::Element(t.clone());
                     (export_members(db, member_owner), None)
                 }
-                LuaType::Instance(i) => {
+                Some(LuaType::Instance(i)) => {
                     let member_owner = LuaMemberOwner::Element(i.get_range().clone());
                     (export_members(db, member_owner), None)
                 }
-                typ => (Vec::new(), Some(render_typ(db, typ, RenderLevel::Simple))),
+                Some(typ) => (Vec::new(), Some(render_typ(db, typ, RenderLevel::Simple))),
             };
 
             let property = module
@@ -51,7 +59,7 @@ fn export_modules(db: &DbIndex) -> Vec<Module> {
                 .cloned()
                 .unwrap_or_default();
 
-            Some(Module {
+            Module {
                 name: module.full_module_name.clone(),
                 property,
                 file: vfs.get_file_path(&module.file_id).cloned(),
@@ -59,7 +67,7 @@ fn export_modules(db: &DbIndex) -> Vec<Module> {
                 members,
                 namespace,
                 using,
-            })
+            }
         })
         .collect()
 }
@@ -67,9 +75,9 @@ fn export_modules(db: &DbIndex) -> Vec<Module> {
 fn export_types(db: &DbIndex) -> Vec<Type> {
     let type_index = db.get_type_index();
     let module_index = db.get_module_index();
-    let types = type_index.get_all_types();
-
-    types
+    let vfs = db.get_vfs();
+    let mut types: Vec<_> = type_index
+        .get_all_types()
         .into_iter()
         .filter(|type_decl| {
             type_decl
@@ -77,6 +85,21 @@ fn export_types(db: &DbIndex) -> Vec<Type> {
                 .iter()
                 .any(|loc| module_index.is_main(&loc.file_id))
         })
+        .collect();
+
+    // The index is a hash map: sort so that the export does not depend on its iteration order.
+    types.sort_by_cached_key(|type_decl| {
+        let mut locations: Vec<_> = type_decl
+            .get_locations()
+            .iter()
+            .map(|loc| (vfs.get_file_path(&loc.file_id).cloned(), loc.range.start()))
+            .collect();
+        locations.sort();
+        (type_decl.get_full_name().to_string(), locations)
+    });
+
+    types
+        .into_iter()
         .flat_map(|type_decl| {
             if type_decl.is_class() {
                 Some(Type::Class(export_class(db, type_decl)))
@@ -96,11 +119,27 @@ fn export_globals(db: &DbIndex) -> Vec<Global> {
     let module_index = db.get_module_index();
     let type_index = db.get_type_index();
     let vfs = db.get_vfs();
-    let globals = global_index.get_all_global_decl_ids();
-
-    globals
+    let mut globals: Vec<_> = global_index
+        .get_all_global_decl_ids()
         .into_iter()
         .filter(|global| module_index.is_main(&global.file_id))
+        .collect();
+
+    // The index is a hash map: sort so that the export does not depend on its iteration order.
+    globals.sort_by_cached_key(|global| {
+        let name = db
+            .get_decl_index()
+            .get_decl(global)
+            .map(|decl| decl.get_name().to_string());
+        (
+            name,
+            vfs.get_file_path(&global.file_id).cloned(),
+            global.position,
+        )
+    });
+
+    let mut exported: Vec<Global> = globals
+        .into_iter()
         .filter_map(|global| {
             let decl = db.get_decl_index().get_decl(&global)?;
             let typ = type_index.get_type_cache(&global.into())?.as_type();
@@ -125,7 +164,19 @@ fn export_globals(db: &DbIndex) -> Vec<Global> {
                 })),
             }
         })
-        .collect()
+        .collect();
+
+    // A global assigned in several files has one declaration per file: list it once,
+    // under its first declaration.
+    exported.dedup_by(|next, first| global_name(next) == global_name(first));
+    exported
+}
+
+fn global_name(global: &Global) -> &str {
+    match global {
+        Global::Table(table) => &table.name,
+        Global::Field(field) => &field.name,
+    }
 }
 
 fn export_class(db: &DbIndex, type_decl: &LuaTypeDecl) -> Class {
@@ -361,11 +412,14 @@ fn export_property(db: &DbIndex, semantic_decl: &LuaSemanticDeclId) -> Property 
 
 fn export_loc_for_type(db: &DbIndex, type_decl: &LuaTypeDecl) -> Vec<Loc> {
     let vfs = db.get_vfs();
-    type_decl
+    let mut locs: Vec<Loc> = type_decl
         .get_locations()
         .iter()
         .filter_map(|loc| export_loc(vfs, loc.file_id, loc.range))
-        .collect()
+        .collect();
+    // The order of the locations follows the order in which the files were analysed.
+    locs.sort_by(|a, b| (&a.file, a.line).cmp(&(&b.file, b.line)));
+    locs
 }
 
 fn export_loc(vfs: &Vfs, file_id: FileId, range: TextRange) -> Option<Loc> {
